@@ -132,6 +132,8 @@ func (r *Run) libCall(st *State, fr *Frame, name string, recv Val, args []Val, s
 		return ret(bg)
 	case "context.WithCancel":
 		p := e.asTerm(args[0], SAny)
+		// context.WithCancel panics on a nil parent ("cannot create context from nil parent")
+		e.safety(st, fr, in, "nilctx", Not(Eq(p, NilOf(SAny))), "context.WithCancel of a non-nil parent at "+e.posOf(in))
 		c := e.freshConst("ctx", SAny)
 		st.assume(Not(Eq(c, NilOf(SAny))))
 		st.assume(Not(Eq(c, p)))
@@ -160,6 +162,7 @@ func (r *Run) libCall(st *State, fr *Frame, name string, recv Val, args []Val, s
 		return ret()
 	case "context.WithoutCancel":
 		p := e.asTerm(args[0], SAny)
+		e.safety(st, fr, in, "nilctx", Not(Eq(p, NilOf(SAny))), "context.WithoutCancel of a non-nil parent at "+e.posOf(in))
 		c := e.freshConst("ctxnc", SAny)
 		st.assume(Not(Eq(c, NilOf(SAny))))
 		r.ctxNever(st, c)
